@@ -139,6 +139,80 @@ def borrow_sites(fn):
     return out
 
 
+
+# library functions that turn a Result into something that no longer carries its error
+SWALLOWERS = ('core::result::Result::ok', 'core::result::Result::iter', 'core::result::Result::iter_mut',
+              'core::result::Result::unwrap_or', 'core::result::Result::unwrap_or_default',
+              'core::result::Result::unwrap_or_else', 'core::result::Result::is_ok_and', 'core::result::Result::map_or',
+              'core::result::Result::map_or_else', 'core::result::Result::into_iter')
+SWALLOW_IMPLS = ('<core::result::Result<T, E> as core::iter::traits::collect::IntoIterator>::into_iter', )
+
+
+def run_indirect_swallow(ctx, rep):
+    """R9.7: an error-discarding Result function instantiated with a device-capable error type must not be reached
+    from fatfs code *through library adaptors* (`iter.flatten()`, `filter_map(Result::ok)`, `flat_map`, `sum`, ...):
+    the discarding call then sits inside core and no call site in fatfs shows it (direct calls are R9.3's)."""
+    facts = ctx.facts
+    dev_markers = ('fatfs::error::Error<', 'fatfs::Error<', 'DevErr', 'std::io::Error', 'std::io::error::Error')
+    n = 0
+    for i in facts.instances:
+        name = i['fn']
+        if not (name in SWALLOWERS or name in SWALLOW_IMPLS or
+                (name.endswith('IntoIterator>::into_iter') and 'core::result::Result' in name)):
+            continue
+        args = i.get('args') or ''
+        # the error type is the last generic argument
+        inner = args.strip('[]')
+        depth, parts, cur = 0, [], ''
+        for ch in inner:
+            if ch in '<([':
+                depth += 1
+            elif ch in '>)]':
+                depth -= 1
+            if ch == ',' and depth == 0:
+                parts.append(cur.strip())
+                cur = ''
+            else:
+                cur += ch
+        if cur.strip():
+            parts.append(cur.strip())
+        if len(parts) < 2 or not any(m in parts[1] for m in dev_markers):
+            continue
+        # walk callers through non-fatfs instances; the first fatfs instance met is the responsible site
+        seen = {i['id']}
+        work = [(i['id'], 0)]
+        while work:
+            x, hops = work.pop()
+            for a, bb, kind in facts.in_edges[x]:
+                if a in seen:
+                    continue
+                seen.add(a)
+                ai = facts.instances[a]
+                if ai['crate'] == 'fatfs' or ('::controls::' in ai['fn'] and '_r9_7' in ai['fn']):
+                    if hops == 0:
+                        continue  # a direct call in fatfs: judged by R9.3 with its own exemptions
+                    fn = facts.fns.get(ai['fn'])
+                    if fn is None or fn.is_drop_impl():
+                        continue
+                    n += 1
+                    t = fn.blocks[bb]['term']
+                    is_control = ai['crate'] != 'fatfs'
+                    if is_control:
+                        rep.control('R9.7')
+                        continue
+                    rep.oblige('R9.7', '%s|bb%d' % (fn.name, bb), ok=False, nontrivial=True)
+                    rep.violation('R9.7', vkey('R9.7', fn.name, (t.get('callee') or '?'), t['span']['snip']),
+                                  fn.loc(t['span']),
+                                  '%s hands results that can carry a storage error to a library adaptor (%s) that reaches %s: '
+                                  'an Err item is discarded inside the adaptor instead of being returned as Error::Io' % (
+                                      fn.name, (t.get('callee') or '?').rsplit('::', 1)[-1], name))
+                elif ai['crate'] in ('core', 'alloc'):
+                    # only library adaptors are looked through; other crates' internal uses of io::Error are theirs
+                    work.append((a, hops + 1))
+    rep.counts['R9.7'] = rep.counts.get('R9.7', 0) + n
+    rep.oblige('R9.7.scan', 'mono-graph', ok=True)
+
+
 def run_refcell(ctx, rep):
     facts = ctx.facts
     # seeds: fn name -> {(field, kind)}
@@ -226,3 +300,4 @@ _run_fate = run
 def run(ctx, rep):
     _run_fate(ctx, rep)
     run_refcell(ctx, rep)
+    run_indirect_swallow(ctx, rep)
